@@ -94,3 +94,14 @@ package transport
 //@   before call:Unlock#1 assert has(h.workq, conn)
 //@   before go:worker#1 assert !held(h.Mutex) && arg0 == conn
 //@   ensures spawned("worker")
+
+// ---- thin spots (round 7b) ----
+//@ func NewConnHandshaker
+//@   ensures !cast("*connHandshaker", result).closed && len(cast("*connHandshaker", result).doneq) == 0
+//@
+//@ func GetTransport
+//@   ensures has(transports, scheme) ==> result == transports[scheme]
+//@   ensures !has(transports, scheme) ==> isnil(result)
+//@
+//@ func RegisterTransport
+//@   before call:Unlock#1 assert called("Scheme")
